@@ -435,3 +435,82 @@ def c09_r6(ctx):
             ctx.ob(f, False, "the result of %s is used" % norm.canon(c)[:70],
                    detail="%s() returns a new object and does not modify its receiver: this statement has no effect" % nm, loc=ctx.nodeloc(f, st))
     ctx.ob("whole program", n > 2000, "%d functions scanned for dropped results of copy-on-write calls" % n)
+
+
+@rule("C09", "R7", "K2", "every posting a document adds carries the document/field boost",
+      min_instances=1,
+      clause="In SegmentWriter.add_document the weight handed to the posting pool is, on every path to the add, the field's weight "
+             "multiplied by the boost computed by _field_boost(): the multiplication is not under a condition (scorable, stored, ...) "
+             "the add itself is not under -- every weighting model falls back to the stored weight for fields without lengths.")
+def c09_r7(ctx):
+    prog = ctx.prog
+    f = prog.method("writing.SegmentWriter", "add_document", inherited=False)
+    ctx.saw(f)
+    g = cfgmod.cfg_of(f, exc_edges=False)
+    dom = g.dominators()
+    # the local(s) that hold the boost
+    boosts = set()
+    for st in ast.walk(f.node):
+        if isinstance(st, ast.Assign) and isinstance(st.value, ast.Call) and norm.call_name(st.value) == "_field_boost":
+            boosts.update(t.id for t in st.targets if isinstance(t, ast.Name))
+    if not boosts:
+        raise AnalysisError("add_document no longer keeps the result of _field_boost() in a local")
+    al = norm.aliases(f.node)
+    adds = []
+    for nd in g.nodes:
+        if nd.ast is None:
+            continue
+        for e in cfgmod.node_exprs(nd):
+            for c in norm.calls_in(e):
+                t = norm.canon(c.func, al)
+                if t in ("self.pool.add", "add_post") and c.args and isinstance(c.args[0], ast.Tuple) and len(c.args[0].elts) == 5:
+                    adds.append((nd, c))
+    # the add of the field's own postings: its weight element is a variable (the spelling add uses the constant 1)
+    main = [(nd, c) for nd, c in adds if not isinstance(c.args[0].elts[3], ast.Constant)]
+    if not main:
+        raise AnalysisError("the posting-pool add of add_document was not found")
+    for nd, c in main:
+        w = c.args[0].elts[3]
+        ok = bool(norm.names_in(w) & boosts)
+        if not ok and isinstance(w, ast.Name):
+            for m in g.nodes:
+                a = m.ast
+                if isinstance(a, ast.AugAssign) and isinstance(a.op, ast.Mult) and isinstance(a.target, ast.Name) and a.target.id == w.id \
+                        and norm.names_in(a.value) & boosts and m.id in dom.get(nd.id, ()):
+                    ok = True
+                if isinstance(a, ast.Assign) and any(isinstance(t, ast.Name) and t.id == w.id for t in a.targets) \
+                        and isinstance(a.value, ast.BinOp) and isinstance(a.value.op, ast.Mult) and norm.names_in(a.value) & boosts \
+                        and w.id in norm.names_in(a.value) and m.id in dom.get(nd.id, ()):
+                    ok = True
+        ctx.ob(f, ok, "the weight added to the pool has been multiplied by the field boost on every path",
+               detail="weight element `%s`; boost local(s) %s" % (norm.canon(w), sorted(boosts)), loc=ctx.nodeloc(f, c))
+
+
+@rule("C09", "R8", "K4", "collection statistics are taken over one population",
+      min_instances=2,
+      clause="Searcher.avg_field_length divides the total field length by the cached doc_count_all() (self._doccount), and "
+             "WeightingModel.idf takes doc_count_all(): total field length and document frequencies include deleted-but-unmerged "
+             "documents, so the document count they are normalised by must include them too.")
+def c09_r8(ctx):
+    prog = ctx.prog
+    S_ = prog.cls("searching.Searcher")
+    init = S_.methods["__init__"]
+    af = S_.methods["avg_field_length"]
+    ctx.saw(af)
+    # self._doccount is bound from doc_count_all() in the constructor
+    src = [norm.canon(st.value) for st in ast.walk(init.node) if isinstance(st, ast.Assign) and any(norm.canon(t) == "self._doccount" for t in st.targets)]
+    ctx.ob(init, bool(src) and all(s.endswith(".doc_count_all()") for s in src), "self._doccount caches doc_count_all()", detail=str(src))
+    divs = [n for n in ast.walk(af.node) if isinstance(n, ast.BinOp) and isinstance(n.op, (ast.Div, ast.FloorDiv))]
+    ok = False
+    if len(divs) == 1:
+        left = norm.deep_canon(divs[0].left, af.node)
+        right_e = norm.inline_defs(divs[0].right, af.node)
+        right = norm.canon(right_e)
+        ok = "field_length(" in left and \
+            bool((norm.names_in(right_e) | set(x.attr for x in ast.walk(right_e) if isinstance(x, ast.Attribute))) & {"_doccount", "doc_count_all"}) \
+            and "doc_count()" not in right
+    ctx.ob(af, bool(ok), "average field length = total field length / doc_count_all", detail=str([norm.canon(d) for d in divs]))
+    idf = prog.method("scoring.WeightingModel", "idf", inherited=False)
+    ctx.saw(idf)
+    t = norm.stmt_text(idf.node)
+    ctx.ob(idf, "doc_count_all()" in t and ".doc_count()" not in t, "idf uses doc_count_all()")
